@@ -125,8 +125,20 @@ async fn scenario(sim: Arc<Sim>, unit: Value) -> Obs {
     // a long deadline may be in force on the serving side: it must not keep abandoned handlers alive
     let deadline = unit["deadline"].as_str().unwrap_or("none").to_string();
     let inbound = (deadline == "inbound-default").then_some(5_000u64);
-    let a = sim.start(&NodeSpec::new(1).config(cfg2(bidi, inbound))).unwrap();
-    let b = sim.start(&NodeSpec::new(2).config(cfg2(bidi, inbound))).unwrap();
+    // anemo-tower's per-peer in-flight limit (3) may be installed around both services: a slot
+    // taken by an abandoned call must come back
+    let tower = unit["tower"].as_str().unwrap_or("none").to_string();
+    let mk = |key: u8| {
+        let spec = NodeSpec::new(key).config(cfg2(bidi, inbound));
+        match tower.as_str() {
+            "inflight-block" => sim.start_inflight(&spec, 3, true),
+            "inflight-error" => sim.start_inflight(&spec, 3, false),
+            _ => sim.start(&spec),
+        }
+        .unwrap()
+    };
+    let a = mk(1);
+    let b = mk(2);
     let (na, nb) = (sim.node_of(&a), sim.node_of(&b));
     sim.fabric.set_latency_us(na, nb, LAT_US);
     sim.fabric.set_latency_us(nb, na, LAT_US);
@@ -268,7 +280,7 @@ impl Check for C12 {
         CheckMeta {
             property: "C12",
             level: "fault_enumeration",
-            rule: "abandon point enumeration: the caller's future is dropped never-polled, after its first poll, after every n-th datagram it sends (small request and a 200 KiB multi-flight request), at every 500 us instant up to completion, and at offsets after the remote handler started; handler instant / 10 ms / never; both call directions; plus histories of 3 x limit abandoned calls with max_concurrent_bidi_streams in {2,4} and 300 with the default 100; each with a never-abandoned sibling RPC in flight and a fresh RPC afterwards; datagram fates within the deviation bound; distinct = distinct (handlers started, calls finished before the abandon)".into(),
+            rule: "abandon point enumeration: the caller's future is dropped never-polled, after its first poll, after every n-th datagram it sends (small request and a 200 KiB multi-flight request), at every 500 us instant up to completion, and at offsets after the remote handler started; handler instant / 10 ms / never; both call directions; plus histories of 3 x limit abandoned calls with max_concurrent_bidi_streams in {2,4} and 300 with the default 100; the histories also with anemo-tower's per-peer in-flight limit (3, Block and ReturnError) around the services; each with a never-abandoned sibling RPC in flight and a fresh RPC afterwards; datagram fates within the deviation bound; distinct = distinct (handlers started, calls finished before the abandon)".into(),
             assumptions: vec!["prompt = one-way latency + 2 ms of virtual time without injected faults; with an injected fault the cancellation may need a retransmission (3.5 s allowed)".into()],
             exhaustive: true,
         }
@@ -320,6 +332,13 @@ impl Check for C12 {
                         continue;
                     }
                     u.push(json!({"kind":"history","reverse":reverse,"bidi_limit":limit,"handler":"never","body_len":64,"abandons":abandons,"spacing_us": if pattern == 2 { 0 } else { 300 },"bound": if limit.is_some() { tier.pick(0, 1) } else { 0 },"fate_budget":30}));
+                    // the same histories with a per-peer in-flight limit of 3 around the services
+                    // (spaced, so that at most one abandoned call holds a slot besides the sibling)
+                    if limit != Some(2) && pattern != 2 && !(limit.is_none() && tier == Tier::Quick) {
+                        for tower in ["inflight-block", "inflight-error"] {
+                            u.push(json!({"kind":"history","reverse":reverse,"bidi_limit":limit,"handler":"never","body_len":64,"abandons":abandons,"spacing_us":30_000,"bound":0,"fate_budget":0,"tower":tower}));
+                        }
+                    }
                 }
             }
         }
